@@ -176,14 +176,13 @@ def glob_match(pat, s):
     return n in cur
 
 
-def glob_from(rnd, nm):
+def glob_from(rnd, nm, stars=4):
     """A wildcard derived from the name nm: characters kept, replaced by '?', runs replaced by '*', several stars in a row,
     stars next to '?', an occasional wrong character.  Whether it matches nm (or anything else) is for glob_match to say.
     Bytes that cannot travel through a command line unchanged become '?'.  At most four stars per wildcard and 60 characters
     of the name: a backtracking matcher needs about len^stars steps to say no, and this is about shapes, not running time."""
     out = b''
     i = 0
-    stars = 4
     while i < len(nm):
         c = nm[i]
         r = rnd.random()
